@@ -11,6 +11,11 @@ use std::fmt::Display;
 use std::str::FromStr;
 
 use std::sync::Arc;
+#[cfg(feature = "verif-hooks")]
+use crate::verif::{AtomicU64, AtomicUsize};
+#[cfg(feature = "verif-hooks")]
+use std::sync::atomic::Ordering;
+#[cfg(not(feature = "verif-hooks"))]
 use std::sync::atomic::{AtomicU64, AtomicUsize, Ordering};
 
 /// A lock-free implementation of a price level in a limit order book
